@@ -45,18 +45,6 @@ REQUIRED = {
 }
 # The one emitter whose metadata write is its callers' job (DESIGN: named exception).
 R1_EXCEPTION = "useractions.UserActions.doModifyColumn"
-# Gateway arguments that are not built from an action constructor in the same function, each with
-# the reason it cannot be a schema action of its own making.
-OPAQUE_GATEWAY_ARGS = {
-  "useractions.UserActions._do_extra_doc_action": "re-wraps a record action handed in by the caller",
-  "useractions.UserActions.ApplyDocActions": "raw path (not decided, see EXPLANATION)",
-  "useractions.UserActions.ApplyUndoActions": "raw path (not decided, see EXPLANATION)",
-  "useractions.UserActions.doModifyColumn": "recalc_from_reverse_values() returns a record update",
-  "useractions.UserActions.AddReverseColumn": "recalc_from_reverse_values() returns a record update",
-  "useractions.UserActions.doBulkAddOrReplace": "record action converted by convert_action_values",
-  "useractions.UserActions.doBulkUpdateRecord": "record action converted by convert_action_values",
-}
-
 
 def check(run, repo, tier):
   w = World(repo)
@@ -105,13 +93,7 @@ def r1_pairing(run, w):
     du = None
     for (n, c) in H.gateway_sites(fn):
       du = du or DefUse(fn)
-      kinds = H.action_kinds_of_arg(fn, du, c.args[0], names)
-      if not kinds:
-        if fi.qualname not in OPAQUE_GATEWAY_ARGS:
-          raise AnalysisError("%s: gateway argument %s is not built from an action constructor "
-                              "here and is not an enumerated opaque source"
-                              % (fi.qualname, short(c.args[0])))
-        continue
+      kinds, _producer = H.classify_gateway_arg(fn, du, c, names)
       for k in sorted(kinds & schema_names):
         sites.append((n, k, short(c)))
     for (n, c, nm) in fn.calls():
